@@ -89,7 +89,7 @@ def gen_chain(rng, mod):
     n = rng.randint(1, 7)
     lines = [f"module {mod}"]
     frames = []          # expected, outermost first (after the file frame)
-    kinds = [rng.choice(["plain", "plain", "tail", "closure", "async", "async_late"]) for _ in range(n)]
+    kinds = [rng.choice(["plain", "plain", "tail", "closure", "async", "async_late", "multiline", "listlit"]) for _ in range(n)]
     kinds[-1] = "throw"
     pending_tco = 0
     for i, k in enumerate(kinds):
@@ -115,6 +115,22 @@ def gen_chain(rng, mod):
             lines.append(f"    1 + await {nxt}")
             frames.append((f"{mod}::{name}", len(lines), pending_tco))
             pending_tco = 0
+        elif k == "multiline":
+            # the call sits on a continuation line of a multi-line expression
+            lines.append(f"    {rng.randint(1, 5)} +")
+            lines.append(f"      {nxt} +")
+            frames.append((f"{mod}::{name}", len(lines), pending_tco))
+            pending_tco = 0
+            lines.append("      2")
+        elif k == "listlit":
+            lines.append("    var lst = [")
+            lines.append("      1,")
+            lines.append(f"      {nxt},")
+            frames.append((f"{mod}::{name}", len(lines), pending_tco))
+            pending_tco = 0
+            lines.append("      3")
+            lines.append("    ]")
+            lines.append("    lst[1]")
         elif k == "async_late":
             # the promise is already settled (rejected) when it is awaited: the fast path of AWAIT
             lines.append(f"    var pr = {nxt}")
@@ -141,8 +157,14 @@ def gen_chain(rng, mod):
     lines.append("end")
     for _ in range(rng.randint(0, 3)):
         lines.append("# top filler")
-    lines.append(f"println({mod}.m0(1).inspect)")
-    top_line = len(lines)
+    if rng.random() < 0.3:
+        lines.append("println(")
+        lines.append(f"  {mod}.m0(1).inspect")
+        top_line = len(lines)
+        lines.append(")")
+    else:
+        lines.append(f"println({mod}.m0(1).inspect)")
+        top_line = len(lines)
     return "\n".join(lines) + "\n", top_line, frames
 
 
